@@ -207,7 +207,7 @@ BASIC_TYPE:
 			// if fieldType.String() == "diam.AVP"
 			if fieldType == reflect.TypeOf(AVP{}) {
 				p := reflect.New(fieldType)
-				v := reflect.ValueOf(p).Elem()
+				v := p.Elem()
 				v.Set(field)
 				avp := p.Interface().(*AVP)
 				return nil, append(avps, avp)
